@@ -132,6 +132,7 @@ pub fn migrate_step(
     let book_pre = sim.book.clone();
     let cfg_pre = sim.cfg.clone();
     sim.twin = None;
+    sim.prev_op = None;
 
     if set_version.as_deref() == Some("<absent>") {
         sim.chain.storage.data.remove(b"version_info".as_slice());
